@@ -116,4 +116,17 @@ def skinZint (sqrtC : C → C) (besselRatio : C → C) (isSmall : C → Bool)
   let b := if isSmall kr then besselRatio kr else HasI.I
   k / (twopi * r * sigma) * b
 
+/-- contribution of one half of a pulse to a distributed load: conductor length of the half times the per-length
+impedance of the wire it belongs to (`none`: that wire carries no such load — the code skips the half) -/
+def distTerm (h : Option C × C) : C :=
+  match h.1 with
+  | some z => h.2 * z
+  | none => ((0 : Nat) : C)
+
+/-- `Skin_Effect_Load.impedance` / `Insulation_Load.impedance` of one pulse: the sum over its two halves.  For the
+skin effect the length is the distance between the ends of the half segment and the per-length value `zint`; for an
+insulation the length is half the segment length and the value `jω·zins`. -/
+def distImpedance (halves : List (Option C × C)) : C :=
+  halves.foldl (fun x h => x + distTerm h) ((0 : Nat) : C)
+
 end Pmn.Circuit
